@@ -673,13 +673,15 @@ from rulelib import subordinate  # noqa: E402
 # accessors that unwrap an invariant ↔ the validator that is supposed to establish it:
 # (accessor fn, validator fn, accessor's root term → validator's root term)
 INVARIANT_PAIRS = [
+    ("identity_did::did_jwk::DIDJwk::jwk", "<identity_did::did_jwk::DIDJwk as core::convert::TryFrom<identity_did::did::CoreDID>>::try_from",
+     [(("field", ("param", "self"), "0"), ("param", "$0")), (("param", "self"), ("param", "$0"))]),      # DIDJwk derefs to its CoreDID; $0 = the validator's first parameter
     (CR + "credential::linked_domain_service::LinkedDomainService::domains", CR + "credential::linked_domain_service::LinkedDomainService::check_structure",
-     (("field", ("param", "self"), "service"), ("param", "service"))),
+     (("field", ("param", "self"), "service"), ("param", "$0"))),
     (CR + "credential::linked_verifiable_presentation_service::LinkedVerifiablePresentationService::verifiable_presentation_urls",
      CR + "credential::linked_verifiable_presentation_service::LinkedVerifiablePresentationService::check_structure",
-     (("field", ("param", "self"), "0"), ("param", "service"))),
+     (("field", ("param", "self"), "0"), ("param", "$0"))),
 ]
-INV_OPAQUE = r"Service::(service_endpoint|type_)$|::get$|url_only_includes_origin$|Url::scheme$|::scheme$|::is_empty$"
+INV_OPAQUE = r"Service::(service_endpoint|type_)$|::get$|url_only_includes_origin$|Url::scheme$|::scheme$|::is_empty$|decode_b64_json$|::method_id$|::method$"
 
 
 def _subst(t, a, b):
@@ -695,7 +697,12 @@ def check_accessor_invariants(F, r2):
     are each contradicted on every accepting path of the validator — the validator looked at the same thing and found the opposite."""
     import sym as SY
     import symrules as SR
-    for acc, val, (ra, rv) in INVARIANT_PAIRS:
+    for acc, val, maps in INVARIANT_PAIRS:
+        maps = maps if isinstance(maps, list) else [maps]
+        hv = F.hir(val)
+        import sym as _sy
+        p0 = _sy.param_name(F, val, 0)
+        maps = [(ra, _subst(rv, ("param", "$0"), ("param", p0))) for ra, rv in maps]
         if not (r2.anchor(F.hir(acc), acc) and r2.anchor(F.hir(val), val)):
             continue
         try:
@@ -710,7 +717,11 @@ def check_accessor_invariants(F, r2):
             r2.fail((val, "not-evaluable"), "%s: a path could not be evaluated to the end" % short(val))
         good = bool(oks)
         for pq in panics:
-            conj = [(_subst(a, ra, rv), c) for (a, c, _, _) in pq.decisions]
+            conj = []
+            for (a, c, _, _) in pq.decisions:
+                for ra, rv in maps:
+                    a = _subst(a, ra, rv)
+                conj.append((a, c))
             for vq in oks:
                 vdec = {a: c for (a, c, _, _) in vq.decisions}
                 contradicted = False
@@ -757,15 +768,10 @@ def check_gates(F, R):
             parent = re.sub(r"(::\{closure#\d+\})+$", "", fn)
             r2.site("%s constructed in %s" % (short(adt), short(fn)), F.code_path(parent))
             if gname == "DIDJwk":
-                h = F.hir(parent)
-                good = False
-                for n in H.walk(H.root(h)):
-                    if n.get("k") == "mcall" and n.get("name") == "map" and H.is_call(H.strip(n["recv"]), re.compile(pat)):
-                        cl = H.strip(n["args"][0])
-                        if cl.get("k") == "closure" and fn != parent:
-                            good = True
-                r2.require(good and parent == "<identity_did::did_jwk::DIDJwk as core::convert::TryFrom<identity_did::did::CoreDID>>::try_from",
-                           (adt, "ungated-construction", fn), "%s is constructed in %s, not inside `decode_b64_json(..).map(|_| ..)`" % (short(adt), fn))
+                gate = "<identity_did::did_jwk::DIDJwk as core::convert::TryFrom<identity_did::did::CoreDID>>::try_from"
+                r2.require(parent == gate or bool(L.private_helper_of(F, parent, {gate})), (adt, "ungated-construction", fn), "%s is constructed in %s, outside TryFrom<CoreDID>" % (short(adt), fn))
+                # what the gate establishes is decided with the accessor it protects (check_accessor_invariants): every accepting
+                # path decoded the method id as a JWK ✓ — the very oracle call `jwk()` later `expect`s
             elif gname == "IntegrityMetadata":
                 want = "<" + adt + " as core::convert::TryFrom<alloc::string::String>>::try_from"
                 if r2.require(fn == want, (adt, "ungated-construction", fn), "%s is constructed in %s" % (short(adt), fn)):
